@@ -70,6 +70,15 @@ def _elementwise(fn, nin):
     return call
 
 
+def _allfv(fvs, conj):
+    if any(f is None for f in fvs) or not fvs:
+        return None
+    r = fvs[0]
+    for f in fvs[1:]:
+        r = (r & f) if conj else (r | f)
+    return r
+
+
 class _FloatMeta(type):
     def __instancecheck__(cls, x):
         return isinstance(x, (builtins.float, SR))
@@ -94,7 +103,7 @@ def _exp1(x):
     c = core._const_of(z3.simplify(x.t))
     if c is not None:
         return math.exp(builtins.float(c))
-    return SR(EXP(x.t))
+    return SR(EXP(x.t), None, None, core._fop(_np.exp, x))
 
 
 def _log1(x):
@@ -102,7 +111,8 @@ def _log1(x):
         return math.log(x) if x > 0 else (builtins.float('-inf') if x == 0 else builtins.float('nan'))
     CTX.obligation('log', x.t <= 0, 'log argument not positive')
     CTX.assumes.append(x.t > 0)
-    return SR(LOG(x.t))
+    core.mask_and(None if x.fv is None else x.fv > 0)
+    return SR(LOG(x.t), None, None, core._fop(_np.log, x))
 
 
 EXP = z3.Function('exp', z3.RealSort(), z3.RealSort())
@@ -122,9 +132,9 @@ def _where1(c, a, b):
     if isinstance(c, SymBool):
         if not isinstance(a, SR) and not isinstance(b, SR) and a == b:
             return a
-        return SR(z3.If(c.e, lift(a), lift(b)))
+        return core.lazy_if(c.e, a, b, c.fv)
     if isinstance(c, SR):
-        return SR(z3.If(c.t != 0, lift(a), lift(b)))
+        return core.lazy_if(c.t != 0, a, b, None if c.fv is None else c.fv != 0)
     return a if c else b
 
 
@@ -278,7 +288,10 @@ class Stubs:
             CTX.inputs[str(v)] = v
             if lo is not None:
                 CTX.domain += [v >= lo, v < hi]
-            out[idx] = SR(v)
+                fv = core.SAMPLE_RNG.uniform(lo, hi, core.K_SAMPLES)
+            else:
+                fv = core.SAMPLE_RNG.standard_normal(core.K_SAMPLES)
+            out[idx] = SR(v, None, None, fv)
         self.rng_log.append((tag, shape))
         return out if shape else out[()]
 
@@ -538,26 +551,30 @@ class Proxy:
             return bool(_np.allclose(_conc(_obj(a)), _conc(_obj(b)), rtol=rtol, atol=atol))
         a, b = _np.broadcast_arrays(_obj(a), _obj(b))
         es = []
+        fvs = []
         for x, y in zip(a.ravel(), b.ravel()):
             r = core.sym_isclose(x, y, rtol, atol)
             if isinstance(r, SymBool):
                 es.append(r.e)
+                fvs.append(r.fv)
             elif not r:
                 return False
-        return SymBool(z3.And(es)) if es else True
+        return SymBool(z3.And(es), _allfv(fvs, True)) if es else True
 
     def array_equal(self, a, b):
         a, b = _obj(a), _obj(b)
         if a.shape != b.shape:
             return False
         es = []
+        fvs = []
         for x, y in zip(a.ravel(), b.ravel()):
             r = (x == y)
             if isinstance(r, SymBool):
                 es.append(r.e)
+                fvs.append(r.fv)
             elif not r:
                 return False
-        return SymBool(z3.And(es)) if es else True
+        return SymBool(z3.And(es), _allfv(fvs, True)) if es else True
 
     def where(self, c, a=None, b=None):
         if a is None:
@@ -575,14 +592,16 @@ class Proxy:
             return (_np.all if conj else _np.any)(a, axis=axis)
         if axis is None:
             es = []
+            fvs = []
             for e in a.ravel():
                 if isinstance(e, (SymBool, SR)):
                     es.append(core._b(e))
+                    fvs.append(core._bfv(e))
                 elif bool(e) != conj:
                     return not conj
             if not es:
                 return conj
-            return SymBool(z3.And(es) if conj else z3.Or(es))
+            return SymBool(z3.And(es) if conj else z3.Or(es), _allfv(fvs, conj))
         moved = _np.moveaxis(a, axis, -1)
         out = _np.empty(moved.shape[:-1], dtype=object)
         for idx in _np.ndindex(*moved.shape[:-1]):
@@ -708,7 +727,7 @@ class _ComplexSqrt:
         x = self.x
         r = CTX.newvar('esqrt', ('esqrt', x.t))
         CTX.defs += [r >= 0, z3.If(x.t >= 0, r * r == x.t, r == 0)]
-        return SR(r)
+        return SR(r, None, None, core._fop(lambda v: _np.sqrt(_np.maximum(v, 0.0)), x))
 
 
 Proxy.emath = _Emath()
